@@ -33,6 +33,9 @@ def problems():
         # the argument list): runs on different problems in one process must not share anything
         'linear2kw': (2, lambda X: 27.0 - X[0] - X[1], [stats.norm(loc=10, scale=2), stats.norm(loc=10.0, scale=2.0)], np.eye(2), 7.0 / math.sqrt(8)),
         'lognormalkw': (2, lambda X: X[0] * X[1] - 0.8, [stats.lognorm(s=0.5, scale=2.0), stats.lognorm(s=0.3, scale=2.0)], np.eye(2), None),
+        # a limit state that is not defined everywhere (NaN for A < 0, next to the failure domain): a move to a point where g is undefined
+        # is not a move below the level
+        'sqrt-domain': (2, lambda X: float(np.sqrt(X[0])) - X[1], [stats.norm(4.0, 1.2), stats.norm(0.6, 0.25)], np.eye(2), None),
         'correlated': (2, lambda X: X[0] + X[1] - 0.6, [stats.lognorm(0.5), stats.expon()], np.array([[1.0, 0.6], [0.6, 1.0]]), None),
     }
 
@@ -95,14 +98,20 @@ def check_run(res, name, N, p0, maxSub, seed, reqs, meta, quad=None, config=None
     res.stat('chains_fill_level' if exact else 'chains_do_not_divide_level')
     lsf = r['lsf']
     m = lsf.shape[0]
+    if np.isnan(lsf[0]).any():
+        res.stat('crude_level_outside_the_domain_of_g')      # the first level is plain Monte Carlo: nothing to check on such a draw
+        return r
+    if np.isnan(lsf).any():
+        fail(res, 'a sample where the limit state is undefined (NaN) was kept in a conditional level', case, {'levels_with_nan': [int(k) for k in range(m) if np.isnan(lsf[k]).any()]})
+        return r
     # (b) every level holds N samples sorted by g
     for k in range(m):
-        if lsf[k].shape[0] != N or np.any(np.diff(lsf[k]) < 0):
+        if lsf[k].shape[0] != N or not np.all(np.diff(lsf[k]) >= 0):
             fail(res, 'level not sorted / wrong size', case, {'level': k})
     # (a) nestedness
     for k in range(m - 1):
         thr = max(lsf[k][nc - 1], 0.0)
-        bad = int(np.sum(lsf[k + 1] > thr))
+        bad = int(np.sum(~(lsf[k + 1] <= thr)))          # (a NaN is not below any threshold)
         if bad:
             fail(res, 'samples of level k+1 above the level-k threshold', case, {'level': k + 1, 'above_threshold': bad, 'of': N},
                  sig=f'C13:nestedness:{name}:{N}:{p0}:{seed}')
@@ -162,6 +171,8 @@ def explore(res, rng, n):
             res.samples.append(meta[-1][0])
     # ---- the failure domain is reached exactly at the last allowed level: the same run repeated with maxSubsets = the number of levels it
     # needed (the seed fixes everything else), so the loop is left at numSteps == maxSubsets
+    for sd in (1, 2):
+        check_run(res, 'sqrt-domain', 200, 0.1, 12, sd, reqs, meta)
     for name, N, p0, sd in (('linear2', 50, 0.1, 11), ('lognormal', 100, 0.07, 5), ('quadratic', 40, 0.25, 3)):
         r0 = traced_run(name, N, p0, 12, sd)
         m = int(r0['lsf'].shape[0])
